@@ -60,6 +60,8 @@ def strategy_(draw, tier):
             leaf['unit'], leaf['upd_unit'] = draw(st.sampled_from(UNIT_PAIRS))
             # initial state given in the *other* compatible unit
             leaf['init'] = draw(st.sampled_from([None, 3, 2500]))
+        if kind == 'ser':
+            leaf['inplace'] = draw(st.booleans())
         if kind == 'qlist':
             leaf['unit'], leaf['upd_unit'] = draw(st.sampled_from(UNIT_PAIRS))
             leaf['write'] = draw(st.booleans())
